@@ -178,9 +178,10 @@ def validate(module: str, cfg: str, doc: dict, *, timeout: int = 900, workers: i
             if "Model checking completed. No error has been found." not in out:
                 mi = _RE_INV.search(out)
                 tail = "\n".join(x for x in out.splitlines() if not x.startswith(('<<"OK"', "Parsing", "Semantic", "Linting")))
+                at = tail.find("Error:")
                 raise MachineryError(
                     f"trace validation run of {module}/{cfg} did not complete "
-                    f"({'invariant ' + mi.group(1) if mi else 'rc=' + str(rc)}):\n{tail[-3000:]}")
+                    f"({'invariant ' + mi.group(1) if mi else 'rc=' + str(rc)}):\n{tail[max(at, 0):][:3000]}")
             m = None
             for m in _RE_STATES.finditer(out):
                 pass
